@@ -367,6 +367,134 @@ def axisOk (first : Rat) (a : Axis) : Bool :=
   (match a.coords.head? with | some c => decide (c = first) | none => true) &&
   withinStepFrom first a.step 0 a.coords
 
+/-! ### options of `compute_spectrogram` (`padded`, `boundary`) — interplay with every input class
+
+`window_type` and `detrend` do not reach the axes at all.  `boundary` (`"zeros"`, `"even"`, `"odd"`,
+`"constant"`: the signal is extended by `nperseg//2` on both sides, `ext = true`; `None`: it is not,
+`ext = false`) and `padded` only change *how many* segments scipy produces and, for `boundary=None`,
+that the first segment is centred `nperseg/2` samples after the start instead of on it. -/
+
+/-- number of segments of scipy's `stft` for every `padded` / `boundary` -/
+def stftCountOpt (padded ext : Bool) (len : Nat) (nps noverlap : Int) : Nat :=
+  let nstep := nps - noverlap
+  let e := (len : Int) + (if ext then 2 * (nps / 2) else 0)
+  let nadd := if padded then ((-(e - nps)) % nstep) % nps else 0
+  ((e + nadd - nps) / nstep + 1).toNat
+
+/-- first time coordinate: the source's start, or (no boundary extension) the centre of the first
+    whole window, `nperseg/2` samples later (`nperseg/2` is scipy's true division) -/
+def stftFirst (ext : Bool) (t0 step : Rat) (nps : Int) : Rat :=
+  if ext then t0 else t0 + ((nps : Rat) / 2) / (1 / step)
+
+/-- axes of `compute_spectrogram(audio, w, h, padded=…, boundary=…)` (the code that exists: realised
+    hop advertised, `nperseg` clamped to the audio) -/
+def stftAxesOpt (padded ext : Bool) (len : Nat) (t0 step w h : Rat) : Except AErr SpecAxes :=
+  let nperseg := min (stftNperseg step w) (len : Int)
+  let noverlap := stftNoverlap step w h
+  if len = 0 then .error .value
+  else if nperseg < 1 then .error .value
+  else if noverlap ≥ nperseg then .error .value
+  else
+    .ok ⟨nperseg, noverlap,
+         ⟨stftTimes (stftFirst ext t0 step nperseg) step (nperseg - noverlap)
+            (stftCountOpt padded ext len nperseg noverlap),
+          ((nperseg - noverlap : Int) : Rat) / (1 / step)⟩,
+         ⟨stftFreqs step nperseg, 1 / step / (nperseg : Rat)⟩⟩
+
+/-! ### positional calls: the documented parameter order of the four public functions
+
+The check calls every function also *positionally* in this order; a Tie-1 obligation regenerated on
+every run states that `inspect.signature` of the current source gives exactly this table
+(positional-or-keyword parameters in order, with the `repr` of their defaults). -/
+
+/-- (function, [(parameter, repr of its default or "" when it has none)]) -/
+def signatures : List (String × List (String × String)) := [
+  ("load_recording", [("recording", ""), ("audio_dir", "None")]),
+  ("load_clip", [("clip", ""), ("audio_dir", "None")]),
+  ("resample", [("array", ""), ("target_samplerate", ""), ("window", "None"), ("dim", "'time'")]),
+  ("compute_spectrogram", [("audio", ""), ("window_size", ""), ("hop_size", ""), ("window_type", "'hann'"),
+    ("detrend", "False"), ("padded", "True"), ("boundary", "'zeros'")])]
+
+/-- Python's binding of positional arguments: the i-th value goes to the i-th parameter -/
+def bindPositional {α : Type} (params : List String) (args : List α) : List (String × α) := params.zip args
+
+/-- the parameter names of a documented function -/
+def paramsOf (fn : String) : List String :=
+  match signatures.lookup fn with
+  | some ps => ps.map (·.1)
+  | none => []
+
+/-! ### sessions: several arrays derived from one another in one process
+
+A session is a list of steps; step `k` produces value `k` from the file (loads) or from an *earlier*
+value (`src < k`).  The model is pure: a value, once produced, never changes — which is exactly what
+the check demands of the code (every array is looked at again after every later call). -/
+
+/-- what a step produces: an audio array (its time axis) or a spectrogram (both axes) -/
+inductive SVal
+  | audio (a : Axis)
+  | spec (s : SpecAxes)
+  deriving DecidableEq, Repr
+
+inductive Step
+  | loadClip (s e : Rat)
+  | loadRecording
+  | resample (src target : Nat)
+  | spectrogram (src : Nat) (w h : Rat) (padded ext : Bool)
+  | slice (src a b : Nat)        -- `array.isel(time=slice(a, b))`
+  | look (src : Nat)             -- the earlier array itself, looked at / copied again
+  deriving DecidableEq, Repr
+
+/-- the file and recording a session works on -/
+structure Source where
+  file : List Frame
+  ch : Nat
+  sr : Nat
+  duration : Rat
+
+/-- the audio array a step reads: value `j` of the session so far -/
+def srcAudio (env : List (Except AErr SVal)) (j : Nat) : Except AErr Axis :=
+  match env[j]? with
+  | some (.ok (.audio a)) => .ok a
+  | some (.ok (.spec _)) => .error .value       -- a spectrogram is not an audio array
+  | some (.error e) => .error e                 -- the source could not be produced
+  | none => .error .index
+
+/-- one step = the base operation's model on the value its source had when it was produced -/
+def evalStep (S : Source) (env : List (Except AErr SVal)) : Step → Except AErr SVal
+  | .loadClip s e => (loadClip S.file S.ch S.sr s e).map fun a => .audio ⟨a.times, a.step⟩
+  | .loadRecording => (loadRecording S.file S.sr S.duration).map fun a => .audio ⟨a.times, a.step⟩
+  | .resample j target => do
+      let a ← srcAudio env j
+      let r ← resampleAxis a.coords.length (a.coords.headD 0) (a.coords.getD 1 0) a.step target
+      return .audio r
+  | .spectrogram j w h padded ext => do
+      let a ← srcAudio env j
+      let r ← stftAxesOpt padded ext a.coords.length (a.coords.headD 0) a.step w h
+      return .spec r
+  | .slice j a b => do
+      let x ← srcAudio env j
+      return .audio ⟨(x.coords.take b).drop a, x.step⟩
+  | .look j => do
+      let x ← srcAudio env j
+      return .audio x
+
+/-- the values of a session, in order -/
+def runSession (S : Source) (steps : List Step) : List (Except AErr SVal) :=
+  steps.foldl (fun env st => env ++ [evalStep S env st]) []
+
+/-- an audio axis whose spacing is its advertised step (what `resample` needs of its input) -/
+def Axis.exact (a : Axis) : Bool :=
+  match a.coords with
+  | x :: y :: _ => decide (y - x = a.step)
+  | _ => true
+
+/-- every axis of a value tells the truth about itself: strictly increasing and within one
+    advertised step of `first + i·step`, `first` its own first coordinate -/
+def SVal.truthful : SVal → Bool
+  | .audio a => axisOk (a.coords.headD 0) a
+  | .spec s => axisOk (s.time.coords.headD 0) s.time && axisOk 0 s.freq
+
 /-- a 6-frame stereo file (used by the non-vacuity examples of `Proofs/C15.lean`) -/
 def demoFile : List Frame := [[1, -1], [2, -2], [3, -3], [4, -4], [5, -5], [6, -6]]
 
